@@ -177,6 +177,16 @@ impl BufferPoolRoot {
         unsafe {
             self.shared.with(|inner| {
                 inner.ctrl.release(driver)?;
+                #[cfg(compio_verif)]
+                {
+                    use crate::verif::{POOL_BUF, emit, pool};
+                    emit(POOL_BUF, 0, pool::RELEASED);
+                    for (id, buf) in inner.bufs.iter().enumerate() {
+                        if buf.is_some() {
+                            emit(POOL_BUF, id as u64, pool::RELEASE_DEALLOC);
+                        }
+                    }
+                }
                 for buf in mem::take(&mut inner.bufs).into_iter().flatten() {
                     // Control is successfully released, now deallocate buffers
                     (inner.alloc.deallocate)(buf, inner.size)
@@ -345,6 +355,14 @@ impl Shared {
     }
 
     fn take(&self, buffer_id: u16) -> Option<BufPtr> {
+        #[cfg(compio_verif)]
+        if unsafe { self.with(|inner| matches!(inner.bufs.get(buffer_id as usize), Some(Some(_)))) } {
+            crate::verif::emit(
+                crate::verif::POOL_BUF,
+                buffer_id as u64,
+                crate::verif::pool::TAKE,
+            );
+        }
         unsafe { self.with(|inner| inner.bufs.get_mut(buffer_id as usize)?.take()) }
     }
 
@@ -353,9 +371,21 @@ impl Shared {
             self.with(|inner| {
                 // This method might be called after `BufferPoolRoot::release`.
                 if let Some(slot) = inner.bufs.get_mut(buffer_id as usize) {
+                    #[cfg(compio_verif)]
+                    crate::verif::emit(
+                        crate::verif::POOL_BUF,
+                        buffer_id as u64,
+                        crate::verif::pool::RESET,
+                    );
                     *slot = Some(ptr);
                     inner.ctrl.reset(buffer_id, ptr, inner.size);
                 } else {
+                    #[cfg(compio_verif)]
+                    crate::verif::emit(
+                        crate::verif::POOL_BUF,
+                        buffer_id as u64,
+                        crate::verif::pool::DEALLOC,
+                    );
                     (inner.alloc.deallocate)(ptr, inner.size);
                 }
             })
@@ -387,6 +417,15 @@ impl BufferRef {
         }
         self.cap = (cap as u32).min(self.full_cap);
         self.len = self.len.min(self.cap);
+    }
+}
+
+#[cfg(compio_verif)]
+impl BufferRef {
+    /// Buffer id, start address and full length of the underlying buffer.
+    #[doc(hidden)]
+    pub fn verif_identity(&self) -> (u16, usize, u32) {
+        (self.buffer_id, self.ptr.as_ptr() as usize, self.full_cap)
     }
 }
 
@@ -434,6 +473,12 @@ impl Drop for BufferRef {
             // If the buffer pool is alive, set the pointer back
             shared.reset(self.buffer_id, self.ptr);
         } else {
+            #[cfg(compio_verif)]
+            crate::verif::emit(
+                crate::verif::POOL_BUF,
+                self.buffer_id as u64,
+                crate::verif::pool::DEALLOC,
+            );
             unsafe { (self.alloc.deallocate)(self.ptr, self.full_cap) }
         }
     }
